@@ -54,7 +54,8 @@ class C12(core.Check):
         'pos:end+1', 'pos:member', 'pos:neighbour', 'pos:negative', 'pos:umax', 'pos:umax+1', 'pos:smin', 'pos:smin-1',
         'pos:page-last', 'pos:next-page-first', 'pos:prev-page-last', 'zone:GLOBAL', 'zone:redefined-GLOBAL', 'zone:named',
         'rel:from-end', 'rel:from-start', 'slice:same-page', 'slice:other-page', 'w:non-byte-multiple', 'w:byte-multiple',
-        'expect:ACCEPT', 'expect:REJECT', 'muted-statement', 'second-step-of-a-macro', 'value-as-expression']}
+        'expect:ACCEPT', 'expect:REJECT', 'muted-statement', 'second-step-of-a-macro', 'value-as-expression',
+        'kind:valid_address/indirect_numeric', 'kind:valid_address/deferred_numeric']}
 
     def one(self, conf, text, op, addr, tags, addr_bits=16, endian='big', zones=None, gz=None, origin=None, opcode_bits=8,
             fmt='json'):
@@ -180,6 +181,13 @@ class C12(core.Check):
                         yield self.one(conf, lit(v), {'id': 'o', 'val': v}, addr, [f'kind:{typ}', 'zone:' + zkind, 'pos:' + pos],
                                        addr_bits=ab, zones=zones if G[0] <= zones[0]['start'] and zones[0]['end'] <= G[1] else None,
                                        gz=gz, origin=G[0] if gz else None)
+                        if typ == 'valid_address':
+                            # the same flag on the bracketed numeric forms
+                            for btyp, fmt_ in (('indirect_numeric', '[{}]'), ('deferred_numeric', '[[{}]]')):
+                                bconf = {'type': btyp, 'argument': {'size': 16, 'byte_align': True, 'valid_address': True}}
+                                yield self.one(bconf, fmt_.format(lit(v)), {'id': 'o', 'val': v}, addr,
+                                               ['kind:valid_address', 'kind:valid_address/' + btyp, 'zone:' + zkind, 'pos:' + pos],
+                                               addr_bits=ab, gz=gz, origin=G[0] if gz else None)
         # sliced addresses: targets just across a 2^k boundary
         for k in (4, 8, 10):
             conf = {'type': 'address', 'argument': {'size': k, 'byte_align': False, 'slice_lsb': True, 'match_address_msb': True}}
